@@ -86,6 +86,7 @@ def step (s : St) (op : String) (failAt : Option Nat) : St × String :=
         if !k.live then (s, "skip") else       -- nor does it export through one
         if s.store.contains k.idTok && k.asym then ({ s with keys := s.keys.set i { k with pubKnown := true } }, "ok")
         else (s, "err")
+  | ["box"] => (s, "ok")      -- the CryptoBox reads a key; it writes nothing and changes no key
   | _ => (s, "bad")
 
 def runOps (c06 : Bool) (ops : List String) (crash : Option Nat) : St × List String :=
